@@ -46,6 +46,7 @@ vars == <<prog, pc, todo, plan, warns, reject>>
 (* helpers over the world tables *)
 IsPtr(t)    == WKind[t] = "ptr"
 Deref(t)    == IF IsPtr(t) THEN WPtrElem[t] ELSE t
+HasAddr(t)  == IsPtr(t)      \* what a pointer points to has an address
 IsStructId(t) == t \in DOMAIN WS
 ByValueStruct(t) == IsStructId(t)
 Asg(a, b)   == <<a, b>> \in WAssignable
@@ -135,9 +136,9 @@ FieldIn(t, name) ==
 MethodIn(t, name) ==
   LET s == WS[t]
       ms == {i \in DOMAIN s.ms : s.ms[i].n = name} IN
-  IF ms = {} THEN [ok |-> FALSE, t |-> "NONE", err |-> FALSE]
+  IF ms = {} THEN [ok |-> FALSE, t |-> "NONE", err |-> FALSE, ptr |-> FALSE]
   ELSE LET i == CHOOSE i \in ms : TRUE IN
-       [ok |-> s.ms[i].callable /\ s.ms[i].vis, t |-> s.ms[i].t, err |-> s.ms[i].err]
+       [ok |-> s.ms[i].callable /\ s.ms[i].vis, t |-> s.ms[i].t, err |-> s.ms[i].err, ptr |-> s.ms[i].ptr]
 
 RECURSIVE ResolveFrom(_, _, _, _, _)
 \* returns [ok, term, t, err, call]; call = the last step is a call (not addressable)
@@ -147,7 +148,8 @@ ResolveFrom(steps, i, term, t, isCall) ==
        IF ~IsStructId(base) THEN [ok |-> FALSE, term |-> "", t |-> "NONE", err |-> FALSE, call |-> FALSE]
        ELSE IF st.call
          THEN LET m == MethodIn(base, st.n) IN
-              IF ~m.ok THEN [ok |-> FALSE, term |-> "", t |-> "NONE", err |-> FALSE, call |-> FALSE]
+              \* a method with a pointer receiver needs an address: the result of a call has none, unless it is a pointer
+              IF ~m.ok \/ (m.ptr /\ isCall /\ ~HasAddr(t)) THEN [ok |-> FALSE, term |-> "", t |-> "NONE", err |-> FALSE, call |-> FALSE]
               ELSE IF i = Len(steps) THEN [ok |-> TRUE, term |-> term \o "." \o st.n \o "()", t |-> m.t, err |-> m.err, call |-> TRUE]
               ELSE IF m.err THEN [ok |-> FALSE, term |-> "", t |-> "NONE", err |-> FALSE, call |-> FALSE]
               ELSE ResolveFrom(steps, i + 1, term \o "." \o st.n \o "()", m.t, TRUE)
@@ -196,27 +198,29 @@ ExplicitOutcome(i, dt) ==
 
 ----------------------------------------------------------------------------
 (* default matching of one destination member inside the current source struct *)
-SrcGetters(st, leaf) ==
+\* addr: the value the getter is called on has an address (a variable, a member of one, or a pointer's target)
+SrcGetters(st, leaf, addr) ==
   IF ~O.getter \/ O.rule # "name" \/ ~IsStructId(Deref(st)) THEN << >>
-  ELSE SelectSeq(WS[Deref(st)].ms, LAMBDA m : m.getter /\ m.vis /\ NameEq(leaf, m.n, O.case))
+  ELSE SelectSeq(WS[Deref(st)].ms, LAMBDA m : m.getter /\ m.vis /\ (m.ptr => addr \/ HasAddr(st)) /\ NameEq(leaf, m.n, O.case))
 SrcFields(st, leaf) ==
   IF O.rule # "name" \/ ~IsStructId(Deref(st)) THEN << >>
   ELSE SelectSeq(WS[Deref(st)].fs, LAMBDA f : f.vis /\ NameEq(leaf, f.n, O.case))
 
-\* a slice is copied into fresh storage (C16), which spells out its type; a slice whose type the generated
-\* package cannot name is not matched at all - assigned as a whole it would share its elements with the source
+\* a slice is copied into fresh storage (C16), made as a []E: the ELEMENT type has to be nameable (the slice
+\* type itself need not be: an unexported defined slice type takes a []E). A slice whose element type the
+\* generated package cannot name is not matched at all - assigned as a whole it would share its elements
 SliceRule(dt, st, term) ==
-  IF dt = st /\ dt \in WNameable THEN {Out("slice", term, "copy", ""), Out("slice", term, "loop", "")} ELSE {}
+  IF dt = st /\ WSliceElem[dt] \in WNameable THEN {Out("slice", term, "copy", ""), Out("slice", term, "loop", "")} ELSE {}
 
 \* outcome of ONE candidate: whole-value outcomes, and whether member-wise descent applies
 Whole(dt, ct, term) == IF dt \in WSlices /\ ct \in WSlices THEN SliceRule(dt, ct, term) ELSE Cast(dt, ct, term)
 CanNest(dt, ct) == ByValueStruct(dt) /\ ByValueStruct(ct)
 
-Frame(path, dt, srcTerm, srcT) == [path |-> path, dt |-> dt, srcTerm |-> srcTerm, srcT |-> srcT]
-Children(f, ct, cterm) ==
+Frame(path, dt, srcTerm, srcT, addr) == [path |-> path, dt |-> dt, srcTerm |-> srcTerm, srcT |-> srcT, addr |-> addr]
+Children(f, ct, cterm, caddr) ==
   LET s == WS[f.dt]
       kids == SelectSeq(s.fs, LAMBDA m : m.vis) IN
-  [i \in 1..Len(kids) |-> Frame(Append(f.path, kids[i].n), kids[i].t, cterm, ct)]
+  [i \in 1..Len(kids) |-> Frame(Append(f.path, kids[i].n), kids[i].t, cterm, ct, caddr)]
 
 Put(path, alts, kind) == plan' = Append(plan, [path |-> Join(path), alts |-> alts, kind |-> kind])
 Alt(o, pos) == [o |-> o, pos |-> pos]
@@ -234,7 +238,7 @@ ResolveStep ==
   /\ IF \E i \in NoteIdx : Notes[i].k = "conv" /\ ~ConvOK(Notes[i])
        THEN reject' = TRUE /\ pc' = "done" /\ UNCHANGED todo
        ELSE /\ reject' = FALSE /\ pc' = "walk"
-            /\ todo' = Children(Frame(<< >>, prog.dst, "SRC", prog.src), prog.src, "SRC")
+            /\ todo' = Children(Frame(<< >>, prog.dst, "SRC", prog.src, TRUE), prog.src, "SRC", TRUE)
   /\ UNCHANGED <<prog, plan, warns>>
 
 Visit ==
@@ -253,7 +257,7 @@ Visit ==
         /\ Put(f.path, alts, "explicit") /\ todo' = rest
         /\ warns' = warns \cup {[path |-> Join(f.path), pos |-> a.pos] : a \in {b \in alts : b.o.k = "nomatch"}}
      ELSE
-        LET gs == SrcGetters(f.srcT, leaf)
+        LET gs == SrcGetters(f.srcT, leaf, f.addr)
             fs == SrcFields(f.srcT, leaf)
             \* the candidate that counts: first getter, else first field (several fold-equal candidates
             \* do not occur in this world; MatchField covers the ambiguity)
@@ -273,11 +277,12 @@ Visit ==
             fMust == hasF /\ below /\ CanNest(f.dt, fT)
         IN
         IF gMust \/ gNest THEN
-           /\ todo' = Children(f, gT, gTerm) \o rest /\ UNCHANGED <<plan, warns>>
+           \* below a getter's result nothing has an address, unless the result is a pointer
+           /\ todo' = Children(f, gT, gTerm, HasAddr(gT)) \o rest /\ UNCHANGED <<plan, warns>>
         ELSE IF gWhole # {} THEN
            /\ Put(f.path, {Alt(o, "method") : o \in gWhole}, "default") /\ todo' = rest /\ UNCHANGED warns
         ELSE IF fMust \/ fNest THEN
-           /\ todo' = Children(f, fT, fTerm) \o rest /\ UNCHANGED <<plan, warns>>
+           /\ todo' = Children(f, fT, fTerm, f.addr \/ HasAddr(f.srcT) \/ HasAddr(fT)) \o rest /\ UNCHANGED <<plan, warns>>
         ELSE IF fWhole # {} THEN
            /\ Put(f.path, {Alt(o, "method") : o \in fWhole}, "default") /\ todo' = rest /\ UNCHANGED warns
         ELSE
